@@ -65,9 +65,10 @@ package text
 //@   assigns  nothing
 
 //@ func (r *Reader) Pos(cur int) (p parsley.Pos)
+//@   props C09,C12,C08,C11
 //@   refines parsley.Reader.Pos
 //@   requires wfReader(r) && 0 <= cur && cur <= 1<<60
-//@   ensures  [base;C09,C11,C12] int(p) == r.file.offset + cur
+//@   ensures  [base] int(p) == r.file.offset + cur
 //@   assigns  nothing
 
 //@ func NewReader(file *File) (r *Reader)
